@@ -3,9 +3,9 @@ import Gimli.Model.WOpLayout
 /-! Line-protocol operations for C15 (expression writer). The Rust side answering the same lines
 from the real crate is `harness/src/prop/c15.rs`.
 
-`c15-expr <ctx> <le|be> <address size> <32|64> <version> <pre>/<post>/<entries> <ops>`
+`c15-<ctx> <le|be> <address size> <32|64> <version> <pre>/<post>/<entries> <ops>`
 
-* ctx: `attr` | `loc` | `cfa:<df|eh>` | `cfe:<df|eh>` | `cfv:<df|eh>`
+* ctx: `attr` | `loc` | `cfa-<df|eh>` | `cfe-<df|eh>` | `cfv-<df|eh>`
 * pre/post: `-` or the name length of the auxiliary unit's child; entries: comma separated
   `<b|v|d|R|B><name length>` (`-` for none)
 * ops: `;` separated builder calls (`-` for none), operands separated by `:`; unit entries are
@@ -153,9 +153,12 @@ def renderDecoded (e : Endian) (enc : Op.Encoding) (bs : Bytes) : String :=
   if toks.isEmpty then "-" else ";".intercalate toks
 
 def handle (op : String) (args : List String) : Option String :=
-  match op, args with
-  | "c15-expr", [ctx, e, asz, fmt, ver, units, ops] => do
-    let ctx ← parseCtx ctx
+  match args with
+  | [e, asz, fmt, ver, units, ops] => do
+    -- the op token is `c15-<ctx>` with the `:` of the context written as `-`
+    if !op.startsWith "c15-" then none else
+    let ctx ← parseCtx (((op.drop 4).toString.splitOn "-").intersperse ":" |> String.join)
+    let ctx ← some ctx
     let e ← endian? e
     let asz ← asz.toNat?
     let fmt ← format? fmt
@@ -171,6 +174,6 @@ def handle (op : String) (args : List String) : Option String :=
     if !isCfi && (ver < 2 || ver > 5) then none else
     pure ((emit e enc u ctx ops).render (fun (size, bs) =>
       toString size ++ " " ++ toHex bs ++ " " ++ renderDecoded e enc bs))
-  | _, _ => none
+  | _ => none
 
 end Gimli.Drv.C15
